@@ -183,24 +183,19 @@ func (a *UDPAssociation) ReadLoop() {
 			continue
 		}
 
-		// Update actual client address on first datagram
+		// Only the client that owns the association may use the relay socket.
+		// Datagrams from anyone else are ignored before they can influence the
+		// association (in particular before the reply address is recorded).
+		if !a.isFromClient(clientAddr) {
+			continue
+		}
+
+		// Record the client address on its first datagram; replies go there
 		a.mu.Lock()
 		if a.ActualClientAddr == nil {
 			a.ActualClientAddr = clientAddr
 		}
 		a.mu.Unlock()
-
-		// Verify client address if expected address was specified
-		a.mu.RLock()
-		expected := a.ExpectedClientAddr
-		a.mu.RUnlock()
-
-		if expected != nil && expected.IP != nil && !expected.IP.IsUnspecified() {
-			if !clientAddr.IP.Equal(expected.IP) {
-				// Ignore datagrams from unexpected addresses
-				continue
-			}
-		}
 
 		// Parse SOCKS5 UDP header
 		header, payload, err := ParseUDPHeader(buf[:n])
@@ -221,6 +216,41 @@ func (a *UDPAssociation) ReadLoop() {
 			handler.RelayUDPDatagram(streamID, destAddr, header.Port, header.AddrType, header.RawAddr, payload)
 		}
 	}
+}
+
+// isFromClient reports whether a datagram received on the relay socket comes
+// from the client that owns this association.
+//
+// The owner's IP is the address given in the UDP ASSOCIATE request or, when
+// the client sent all zeros (RFC 1928 section 6), the peer IP of the TCP control
+// connection. A non-zero port in the request must match as well. Control
+// connections that expose no peer address (SOCKS5 over WebSocket) can only be
+// restricted by what the client declared.
+func (a *UDPAssociation) isFromClient(from *net.UDPAddr) bool {
+	if from == nil {
+		return false
+	}
+
+	a.mu.RLock()
+	expected := a.ExpectedClientAddr
+	a.mu.RUnlock()
+
+	var ownerIP net.IP
+	if expected != nil && expected.IP != nil && !expected.IP.IsUnspecified() {
+		ownerIP = expected.IP
+	} else if a.TCPConn != nil {
+		if tcpAddr, ok := a.TCPConn.RemoteAddr().(*net.TCPAddr); ok && tcpAddr != nil {
+			ownerIP = tcpAddr.IP
+		}
+	}
+
+	if ownerIP != nil && !from.IP.Equal(ownerIP) {
+		return false
+	}
+	if expected != nil && expected.Port != 0 && from.Port != expected.Port {
+		return false
+	}
+	return true
 }
 
 // WriteToClient sends a datagram back to the SOCKS5 client.
